@@ -587,6 +587,34 @@ class Inventory:
             src = e[1]
             if "len(%s)" % coll in src.replace(" ", "") or src.endswith("len(%s)}" % coll):
                 return True
+            # the range the element comes from, when its descriptor abbreviates it (`Range{..}`): start 0 (or more), end = len(coll)
+            from .cfgq import ELEM_SOURCES
+            chains = ELEM_SOURCES.get((self.prog.root_of(sc.fn).id, e[1], e[2])) or []
+            # every range of this function that goes by that name must end at len(coll) (the descriptor does not say which one the element is from)
+            good = 0
+            for ch in chains:
+                rng = strip(ch.source)
+                if not (rng[0] == "agg" and rng[1].split("::")[-1] == "Range" and all(a_ in ("iter", "into_iter", "map", "enumerate", "rev") for a_, _ in ch.steps if a_)):
+                    good = -1
+                    break
+                fl = dict(zip(rng[2], rng[3]))
+                end = strip(fl.get("end", ("?",)))
+                if (end[0] == "call" and short_callee(end[1]) == "len" and end[2] and origin_desc(strip(end[2][0])) == coll) or \
+                        (end[0] == "un" and end[1] == "PtrMetadata" and origin_desc(strip(end[2])) == coll):
+                    good += 1
+                else:
+                    good = -1
+                    break
+            if chains and good == len(chains):
+                return True
+            ch = None
+            rng = None
+            if rng is not None and rng[0] == "agg" and rng[1].split("::")[-1] == "Range" and all(a_ in ("iter", "into_iter", "map", "enumerate", "rev") for a_, _ in ch.steps if a_):
+                fl = dict(zip(rng[2], rng[3]))
+                end = strip(fl.get("end", ("?",)))
+                if (end[0] == "call" and short_callee(end[1]) == "len" and end[2] and origin_desc(strip(end[2][0])) == coll) or \
+                        (end[0] == "un" and end[1] == "PtrMetadata" and origin_desc(strip(end[2])) == coll):
+                    return True
         if idx[0] == "call" and short_callee(idx[1]) in ("unwrap", "expect") and idx[2]:
             inner = strip(idx[2][0])
             if inner[0] == "call" and short_callee(inner[1]) == "position":
